@@ -4,8 +4,11 @@ import (
 	"fmt"
 	"go/ast"
 	"go/token"
+	"go/types"
 	"sort"
 	"strings"
+
+	"golang.org/x/tools/go/types/typeutil"
 
 	"verif/checker/eng"
 )
@@ -209,4 +212,14 @@ func (c *cx) domAny(id string, f *eng.Fn, n ast.Node, construct string, pats []s
 	}
 	okd, why := f.Graph().DominatedAny(pt, pats, assume...)
 	return c.r.Check(id, f, construct, "G: every path to the site crosses an edge establishing one of {"+strings.Join(pats, " | ")+"}", n.Pos(), okd, why)
+}
+
+// calleeFunc returns the statically resolved callee function of call.
+func calleeFunc(f *eng.Fn, call *ast.CallExpr) *types.Func {
+	if o := typeutil.Callee(f.Info(), call); o != nil {
+		if fn, ok := o.(*types.Func); ok {
+			return fn
+		}
+	}
+	return nil
 }
